@@ -22,6 +22,7 @@ pub mod matched;
 pub mod api;
 pub mod waitset;
 pub mod listeners;
+pub mod filter;
 
 #[derive(Clone, Debug, Serialize, Deserialize, PartialEq)]
 pub struct Violation {
@@ -79,6 +80,7 @@ pub fn all() -> Vec<ScenarioDef> {
     v.extend(api::defs());
     v.extend(waitset::defs());
     v.extend(listeners::defs());
+    v.extend(filter::defs());
     v
 }
 
